@@ -11,7 +11,7 @@ func init() {
 	register(&PropDef{
 		ID:    "C10",
 		Pkgs:  []string{tr, "grpc", "internal/status"},
-		Claim: "Decides the structural part: the server writes grpc-status = Itoa(code), grpc-message = encodeGrpcMessage(message) and, only when details exist and marshal succeeded, the base64 details header, in both the normal and the early-abort writer; the header names it writes are names the client's header processing recognises; the client builds the final status from the parsed grpc-status, the decoded grpc-message and the details header of the same frame; a status converts to a nil error exactly when its code is OK; after the handler returns, every path writes a status: the handler's (via status.FromError / FromContextError) when it returned an error, OK otherwise; the percent-coding of the message obeys the structural obligations of C08 (consumes input rune by rune, escapes exactly the non-printable bytes, never panics).",
+		Claim: "Decides the structural part: the server writes grpc-status = Itoa(code), grpc-message = encodeGrpcMessage(message) and, only when details exist and marshal succeeded, the base64 details header, in both the normal and the early-abort writer; the header names it writes are names the client's header processing recognises; the client builds the final status from the parsed grpc-status, the decoded grpc-message and the details header of the same frame; a status converts to a nil error exactly when its code is OK; after the handler returns, every path writes a status: the handler's (via status.FromError / FromContextError) when it returned an error, OK otherwise; the percent-coding of the message obeys the structural obligations of C08 (consumes input rune by rune, escapes exactly the non-printable bytes, never panics). writeStatus hands the trailers to the writer on every path except a finished stream, a failed separate header write and an over-size trailer list; the client's gRPC-mode and header-error arms are taken only under their stated conditions.",
 		NotDecided:  []string{"value equality of message and details for all inputs (value property; the percent-encoding itself is C08)"},
 		Assumptions: []string{"proto.Marshal/Unmarshal round-trip the status proto"},
 		Technique:   "static analysis: composite-literal pairing, value-origin of header values and constructor arguments, constant-set agreement between writer and reader, dominating guards, must-pass-through",
